@@ -279,6 +279,39 @@ type StrPredCase struct {
 var checkStrPred = register("c12.strpred", func(c StrPredCase) *Violation {
 	vars := exec.Vars{"a": c.Subject.goValue(), "p": c.Arg}
 	var text string
+	if c.Kind == "starts_arr" {
+		// $p is bound to the array whose JSON text is Arg: never a string, so the predicate is unknown
+		vars["p"] = MustDecode(c.Arg, false)
+		text = "$a starts with $p"
+		if c.Strict {
+			text = "strict " + text
+		}
+		p, err, pan := ParseSafe(text)
+		if err != nil || pan != "" {
+			return violf("harness: %q does not parse", text)
+		}
+		for _, form := range []string{"check", "filter"} {
+			q := p
+			if form == "filter" {
+				ft := "$a ? (@ starts with $p)"
+				if c.Strict {
+					ft = "strict " + ft
+				}
+				q, _, _ = ParseSafe(ft)
+			}
+			got := RunQuery(context.Background(), q, nil, exec.WithVars(vars))
+			if got.Panic != "" || got.Class != EOK {
+				return violf("%s with p=%s: want unknown, Query returned %s%s", text, c.Arg, got, got.Panic)
+			}
+			if form == "check" && (len(got.Items) != 1 || got.Items[0] != nil) {
+				return violf("%s with a=%q p=%s: the right operand is an array, not a string: want null, Query returned %s", text, c.Subject.Text, c.Arg, got)
+			}
+			if form == "filter" && len(got.Items) != 0 {
+				return violf("$a ? (@ starts with $p) with a=%q p=%s: the right operand is an array, not a string: nothing may be kept, Query returned %s", c.Subject.Text, c.Arg, got)
+			}
+		}
+		return nil
+	}
 	if c.Kind == "starts" {
 		if c.AsVar {
 			text = "$a starts with $p"
@@ -449,8 +482,12 @@ func TestC12(t *testing.T) {
 		ev.mu.Unlock()
 		ev.Exhaustive("numeric_triples_transitivity", int64(len(nums)*len(nums)*len(nums)))
 	})
-	patterns := []string{"a", "^a", "b$", "a.c", "^a.*c$", "A", "[ab]+", "a|x", ".", "^$", "a\\.c", "a+", "\\d", "(a)(b)", "^b", "a.b", "a$", "^A", "é", "(", "a.c$", "^"}
-	subjects := []string{"", "a", "abc", "ABC", "a\nc", "a\nb", "b\na", "a.c", "xay", "Abc\nabc", "é", "(", "a(b", "aaa", "1"}
+	// the last rows: characters whose simple case folding is not ToLower/ToUpper (final sigma, long s,
+	// Kelvin sign, dotted/dotless i, titlecase digraph) - Go's (?i) folds by orbit
+	patterns := []string{"a", "^a", "b$", "a.c", "^a.*c$", "A", "[ab]+", "a|x", ".", "^$", "a\\.c", "a+", "\\d", "(a)(b)", "^b", "a.b", "a$", "^A", "é", "(", "a.c$", "^",
+		"σ", "Σ", "ς", "s", "ſ", "k", "\u212a", "i", "İ", "ı", "ǆ", "ǅ", "É", "ß", "SS", "σας", "µ", "μ"}
+	subjects := []string{"", "a", "abc", "ABC", "a\nc", "a\nb", "b\na", "a.c", "xay", "Abc\nabc", "é", "(", "a(b", "aaa", "1",
+		"σ", "Σ", "ς", "S", "ſ", "K", "\u212a", "I", "İ", "ı", "Ǆ", "ǅ", "É", "ß", "ss", "ΣΑΣ", "µ", "Μ"}
 	flagSets := []string{"", "i", "s", "m", "q", "is", "im", "sm", "ism", "iq", "qs", "qm", "iqsm", "ii"}
 	t.Run("string_predicates", func(t *testing.T) {
 		b := ev.enum(t)
@@ -476,6 +513,16 @@ func TestC12(t *testing.T) {
 			for _, pat := range patterns {
 				for _, fl := range flagSets {
 					if !run(StrPredCase{Kind: "regex", Subject: CVal{Kind: "str", Text: s}, Arg: pat, Flags: fl, Strict: i%2 == 0}) {
+						return
+					}
+				}
+			}
+		}
+		// the right operand of starts with is not unwrapped: a variable bound to an array is not a string
+		for _, sub := range []string{"abc", "a", ""} {
+			for _, arr := range []string{`["a"]`, `["abc","x"]`, `[]`, `[["a"]]`, `[""]`} {
+				for _, strict := range []bool{false, true} {
+					if !run(StrPredCase{Kind: "starts_arr", Subject: CVal{Kind: "str", Text: sub}, Arg: arr, AsVar: true, Strict: strict}) {
 						return
 					}
 				}
